@@ -10,24 +10,32 @@ Inductive ocol := OV (l : list (list fl)) | OI (l : list nat) | OF (l : list fl)
 (* what a nearest() call handed back: a bare point array, or a tuple of arrays in order *)
 Inductive onear := OBare (pts : list (list fl)) | OTuple (cols : list ocol).
 
-Inductive mcol := MV (l : list (vec3 Q)) | MI (l : list nat) | MF (l : list Q).
+Inductive mcol := MV (l : list (vec3 Q)) | MI (l : list nat) | MF (l : list Q) | MT (l : list Q).
 Definition opt_col {A} (f : A -> mcol) (o : option A) : list mcol := match o with Some a => [f a] | None => [] end.
 (* magnitude of the input data: rounding errors of points and distances are relative to it *)
 Definition vmag (v : vec3 Q) : Q := Qmax' (Qabs (vx v)) (Qmax' (Qabs (vy v)) (Qabs (vz v))).
 Definition mag_of (vs : list (vec3 Q)) : Q := fold_left (fun m p => Qmax' m (vmag p)) vs 0.
+(* closeness relative to the magnitude of the input data only (no absolute floor): geometry at scale 1e-9 is
+   compared as strictly as geometry at scale 1; t values are dimensionless and compared absolutely *)
+Definition close_rel (mag a b : Q) : bool :=
+  Qle_bool (Qabs (a - b)) (tol * Qmax' mag (Qmax' (Qabs a) (Qabs b))).
+Definition fl_close_rel (mag m : Q) (o : fl) : bool := match o with Fin q => close_rel mag m q | _ => false end.
+Definition list_close_rel mag (m : list Q) (o : list fl) : bool := all2 (fl_close_rel mag) m o.
+Definition vec_close_rel mag (m : vec3 Q) (o : list fl) : bool := list_close_rel mag (vlist m) o.
+Definition vecs_close_rel mag (m : list (vec3 Q)) (o : list (list fl)) : bool := all2 (vec_close_rel mag) m o.
 Definition col_agree (mag : Q) (m : mcol) (o : ocol) : bool :=
   match m, o with
-  | MV a, OV b => vecs_close_mag mag a b
+  | MV a, OV b => vecs_close_rel mag a b
   | MI a, OI b => nat_list_eqb a b
-  | MF a, OF b => list_close_mag mag a b
+  | MF a, OF b => list_close_rel mag a b
+  | MT a, OF b => list_close a b
   | _, _ => false
   end.
 Definition near_agree (mag : Q) (m : nearest_out Q) (o : onear) : bool :=
   match m, o with
-  | NBare p, OBare q => vecs_close_mag mag p q
+  | NBare p, OBare q => vecs_close_rel mag p q
   | NTuple p i d t, OTuple cols =>
-      all2 (fun mo o => col_agree (snd mo) (fst mo) o)
-           ((MV p, mag) :: map (fun c => (c, mag)) (opt_col MI i ++ opt_col MF d) ++ map (fun c => (c, 0)) (opt_col MF t)) cols
+      all2 (col_agree mag) (MV p :: opt_col MI i ++ opt_col MF d ++ opt_col MT t) cols
   | _, _ => false
   end.
 (* same shape (bare / tuple, number and kinds of columns, row counts), values ignored *)
@@ -36,12 +44,13 @@ Definition col_shape (m : mcol) (o : ocol) : bool :=
   | MV a, OV b => Nat.eqb (length a) (length b)
   | MI a, OI b => Nat.eqb (length a) (length b)
   | MF a, OF b => Nat.eqb (length a) (length b)
+  | MT a, OF b => Nat.eqb (length a) (length b)
   | _, _ => false
   end.
 Definition near_shape (m : nearest_out Q) (o : onear) : bool :=
   match m, o with
   | NBare p, OBare q => Nat.eqb (length p) (length q)
-  | NTuple p i d t, OTuple cols => all2 col_shape (MV p :: opt_col MI i ++ opt_col MF d ++ opt_col MF t) cols
+  | NTuple p i d t, OTuple cols => all2 col_shape (MV p :: opt_col MI i ++ opt_col MF d ++ opt_col MT t) cols
   | _, _ => false
   end.
 
@@ -71,7 +80,7 @@ Inductive case :=
 | CAligned (pl : polyline Q) (a b : vec3 Q) (obs : result (list (list fl) * bool)).
 
 Definition pl_agree (mag : Q) (m : polyline Q) (o : list (list fl) * bool) : bool :=
-  vecs_close_mag mag (pv m) (fst o) && Bool.eqb (pclosed m) (snd o).
+  vecs_close_rel mag (pv m) (fst o) && Bool.eqb (pclosed m) (snd o).
 
 (* decision of is_point_on_line_segment is compared only away from the threshold unless arithmetic is exact *)
 Definition on_decided (exact : bool) (p a v : vec3 Q) (eps : Q) : bool :=
@@ -96,7 +105,7 @@ Definition check_case (c : case) : bool :=
       res_agree near_shape m obs && res_agree near_shape mf full &&
       (negb dec || (res_agree (near_agree mag) m obs && res_agree (near_agree mag) mf full))
   | CClosest exact ps sa sv eps pts ts on =>
-      vecs_close_mag (mag_of (ps ++ sa ++ sv)) (closest_points_pairs QOps ps sa sv) pts &&
+      vecs_close_rel (mag_of (ps ++ sa ++ sv)) (closest_points_pairs QOps ps sa sv) pts &&
       list_close (closest_ts_pairs QOps ps sa sv) ts &&
       on_agree exact ps sa sv eps on
   | CSliced pl a b obs => res_agree (pl_agree (mag_of (a :: b :: pv pl))) (sliced_at_points QOps pl a b) obs
